@@ -213,6 +213,70 @@ theorem dot_scale {K : Type} [CommRing K] (k : K) : ∀ (A st : List K), dot A (
   | a :: A, b :: st => by simp [dot, dot_scale k A st]; ring
 
 
+/-! ### the list surgery of `extrude` commutes with a pointwise map -/
+
+theorem shaped_map {α β : Type} (f : α → β) (W : Nat) :
+    ∀ (H : Nat) (s : List α), shaped W H (s.map f) = (shaped W H s).map (List.map f)
+  | 0, _ => rfl
+  | H + 1, s => by
+    have ih := shaped_map f W H (s.drop W)
+    simp only [shaped, List.map_cons]
+    rw [← ih]; simp [List.map_take, List.map_drop]
+
+theorem vstackNew_map {α β : Type} (f : α → β) (new : List α) (rows : List (List α)) :
+    vstackNew (new.map f) (rows.map (List.map f)) = (vstackNew new rows).map (List.map f) := by
+  simp [vstackNew, List.map_dropLast]
+
+theorem flip2_map {α β : Type} (f : α → β) (rows : List (List α)) :
+    flip2 (rows.map (List.map f)) = (flip2 rows).map (List.map f) := by
+  unfold flip2
+  simp [List.map_reverse, Function.comp_def]
+
+theorem ravel_map {α β : Type} (f : α → β) (rows : List (List α)) :
+    ravel (rows.map (List.map f)) = (ravel rows).map f := by
+  simp [ravel, List.map_flatten]
+
+theorem hstackNew_map {α β : Type} (f : α → β) : ∀ (new : List α) (rows : List (List α)),
+    hstackNew (new.map f) (rows.map (List.map f)) = (hstackNew new rows).map (List.map f)
+  | [], _ => by simp [hstackNew]
+  | _ :: _, [] => by simp [hstackNew]
+  | a :: new, r :: rows => by
+    have := hstackNew_map f new rows
+    simp only [hstackNew] at this
+    simp [hstackNew, this, List.map_dropLast]
+
+theorem extrude_map {α β : Type} (f : α → β) (w : Where) (W H : Nat) (new s : List α) :
+    extrude w W H (new.map f) (s.map f) = (extrude w W H new s).map f := by
+  have hr : (s.map f).reverse = s.reverse.map f := List.map_reverse.symm
+  cases w <;>
+    simp only [extrude, Where.flipped, Where.horizontal, if_true, if_false, Bool.false_eq_true, hr, shaped_map,
+      hstackNew_map, vstackNew_map, flip2_map, ravel_map]
+
+theorem getD_map_zero {K : Type} [MulZeroClass K] (k : K) (l : List K) (i : Nat) :
+    (l.map (k * ·)).getD i 0 = k * l.getD i 0 := by
+  simp only [List.getD_eq_getElem?_getD, List.getElem?_map]
+  cases l[i]? <;> simp
+
+theorem arSample_scale {K : Type} [CommRing K] (k amp : K) (A st B rnd : List K) :
+    arSample A (st.map (k * ·)) B rnd (k * amp) = k * arSample A st B rnd amp := by
+  simp only [arSample, dot_scale]; ring
+
+theorem arExtrude_scale {K : Type} [CommRing K] (k amp : K) (w : Where) (W H : Nat) (A B : List (List K))
+    (idx : List Nat) (rnd s : List K) :
+    arExtrude w W H A B idx rnd (k * amp) (s.map (k * ·)) = (arExtrude w W H A B idx rnd amp s).map (k * ·) := by
+  have hst : (idx.map fun i => (stencilView w (s.map (k * ·))).getD i 0)
+      = (idx.map fun i => (stencilView w s).getD i 0).map (k * ·) := by
+    rw [List.map_map]
+    apply List.map_congr_left
+    intro i _
+    have : stencilView w (s.map (k * ·)) = (stencilView w s).map (k * ·) := by
+      unfold stencilView; split <;> simp [List.map_reverse]
+    rw [this]; exact getD_map_zero k _ i
+  simp only [arExtrude, hst, arSample_scale]
+  rw [← extrude_map]
+  congr 1
+  rw [List.map_zipWith]
+
 /-- what every reset of the infinite layer establishes and every operation keeps: the realisation key is the
 position of the original generator, and the working generator is past the draw of the initial screen -/
 def InfL.Inv (L : InfL) : Prop :=
